@@ -274,8 +274,38 @@ def run_case(c):
             out["dos"] = np.array(ph.get_total_dos_dict()["total_dos"]).tolist()
             ph.run_moment(order=2)
             out["moment2"] = float(ph.get_moment())
+            # moments of a frequency window (FMIN/FMAX): states are left out, and the normalisation has to leave them out with their weights. The window
+            # edges sit in the middle of the widest gap of the spectrum near 0.3 / 0.75 of the top frequency (same edges for both runs), so that no
+            # frequency is within rounding of an edge
+            if "win" not in res:
+                allf = np.unique(np.round(np.abs(fr).ravel(), 9))
+
+                def edge(lo, hi):
+                    cand = allf[(allf > lo * fmax) & (allf < hi * fmax)]
+                    if len(cand) < 2:
+                        return 0.5 * (lo + hi) * fmax
+                    k_ = int(np.argmax(np.diff(cand)))
+                    return float(0.5 * (cand[k_] + cand[k_ + 1]))
+
+                res["win"] = (edge(0.15, 0.45), edge(0.6, 0.9))
+            w_lo, w_hi = res["win"]
+            for order in (0, 1, 2):
+                for nm, kw in (("lo", {"freq_min": w_lo}), ("hi", {"freq_max": w_hi}), ("band", {"freq_min": w_lo, "freq_max": w_hi})):
+                    try:
+                        ph.run_moment(order=order, **kw)
+                        out["moment%d_window_%s" % (order, nm)] = float(ph.get_moment())
+                    except ZeroDivisionError:  # no state in the window (coarse meshes): refused in both runs or in neither
+                        out["moment%d_window_%s" % (order, nm)] = float("nan")
+                        obs["moment_window_empty"] = obs.get("moment_window_empty", 0) + 1
+            try:
+                ph.run_moment(order=1, is_projection=True, freq_min=w_lo, freq_max=w_hi)
+                out["moment1_projected_window"] = np.array(ph.get_moment()).tolist()
+            except ZeroDivisionError:
+                out["moment1_projected_window"] = [float("nan")] * len(ph.primitive)
+            obs["moment_windows"] = obs.get("moment_windows", 0) + 10
         res[sym] = out
     a, b = res[True], res[False]
+    res.pop("win", None)
     if c.get("nac") == "wang":
         # the Wang term is not periodic in q: for a grid point ON the Brillouin-zone boundary the tied first-zone images give different
         # frequencies, so "the frequencies at that q" are not defined and neither sum is the reference; such meshes are not compared
